@@ -251,4 +251,14 @@ example :
     let cfg' : Config := fun ty => match ty with | .counter => 5 | _ => -1
     viewAt cfg h .counter = viewAt cfg' h .counter ∧ viewAt cfg h .set ≠ viewAt cfg' h .set := by decide
 
+/-- **C09_config_precedence.**  The interval a type obeys is its own setting when given, else the main
+`expiry-interval` when given, else the default — whatever the other types' settings are. -/
+theorem C09_config_precedence (d : Int) (main perType : Option Int) :
+    Expiry.resolveInterval d main perType =
+      match perType, main with
+      | some p, _ => p
+      | none, some m => m
+      | none, none => d := by
+  cases perType <;> cases main <;> rfl
+
 end Gsd
